@@ -108,6 +108,7 @@ func (e *Engine) verifyFunc(name, prop string, safety bool) *FuncResult {
 				return res
 			}
 			r.assume(st, g)
+			fr.rebindFromExpr(cl.E, st, &evalEnv{fr: fr, st: st, old: st})
 		}
 	}
 	entryGuard := st.guard
@@ -152,13 +153,36 @@ func (e *Engine) verifyFunc(name, prop string, safety bool) *FuncResult {
 		}
 	}
 	if ct != nil {
+		okr, _ := fr.okRets()
 		for _, cl := range ct.Ensures {
 			if !r.active(cl.Tags) {
 				continue
 			}
 			useOut, useNames := out, names
+			rets := fr.rets
 			if okOut != nil && guardedByNilErr(cl.E, okErrNames) {
 				useOut, useNames = okOut, okNames
+				rets = okr
+			}
+			if len(rets) >= 2 && len(rets) <= 8 {
+				// one obligation per return site: the solvers handle the path-specific states
+				// far better than their join
+				for k, rr := range rets {
+					nm := map[string]Value{}
+					for i, n := range rn {
+						nm[n] = rr.vals[i]
+					}
+					if len(rr.vals) == 1 {
+						nm["result"] = rr.vals[0]
+					}
+					g, err := fr.evalBool(cl.E, rr.st, nm)
+					if err != nil {
+						res.Err = fmt.Errorf("ensures %s: %v", cl.Label, err)
+						return res
+					}
+					r.addOblig(&Oblig{Name: fmt.Sprintf("%s#post#%s@ret%d", fname, cl.Label, k), Kind: "post", Func: fname, Label: cl.Label, Tags: cl.Tags, Text: cl.Text, Guard: rr.st.guard, Goal: g})
+				}
+				continue
 			}
 			g, err := fr.evalBool(cl.E, useOut, useNames)
 			if err != nil {
@@ -220,7 +244,7 @@ func (e *Engine) verifyFunc(name, prop string, safety bool) *FuncResult {
 		o.Alt = r.ctx.queryMode([]string{o.Guard, not(o.Goal)}, nil, 1)
 		o.Cand = r.ctx.queryMode([]string{o.Guard, not(o.Goal)}, nil, 2)
 		o.info = info
-		if len(cubes) > 0 && !o.inLoop {
+		if len(cubes) > 0 {
 			o.Cubes = cubes
 			o.ctxRef = r.ctx
 		}
